@@ -281,6 +281,52 @@ def _read_gen(ctx, fname):
         return None
 
 
+def same_file_histories(ctx, rng, n):
+    """Several documents that import ONE file -- with its connections, without them, with them reversed onto other
+    targets -- validated in sequences of three to five on one validator instance: every result must be the result a
+    fresh instance gives (what stitching and namespacing did to an imported schema must not survive the call)."""
+    import copy, impl
+    import checks.c13 as c13mod          # registers history_one with the worker pool
+    payloads, meta = [], []
+    for k in range(n):
+        case = None
+        for _ in range(60):
+            c = I.gen_valid_i(rng, threads=False)
+            if any(imp["conns"] for imp in c["imports"]):
+                case = c
+                break
+        if case is None:
+            continue
+        seed = rng.randrange(1 << 30)
+        sp = ["id", "mixed", "alias"][k % 3]
+        with_conns = I.render_i(case, ctx.repo_copy, random.Random(seed), sp, False, False)
+        bare = copy.deepcopy(with_conns)
+        for e in bare["imports"]:
+            e.pop("connections", None)
+        other = copy.deepcopy(with_conns)
+        for e in other["imports"]:
+            if len(e.get("connections") or []) >= 2:
+                cs = e["connections"]
+                adds = [c_["add_dependency"] for c_ in cs]
+                for c_, a in zip(cs, adds[1:] + adds[:1]):
+                    c_["add_dependency"] = a
+        docs = [bare, with_conns, other]
+        for calls in ([0, 1, 0], [0, 1, 1], [1, 0, 1, 0], [0, 2, 1, 0, 1], [1, 1, 0]):
+            payloads.append({"docs": docs, "calls": [(i, "json" if j % 2 == 0 else "dict") for j, i in enumerate(calls)]})
+            meta.append(calls)
+    pool = impl.Pool(ctx)
+    results = pool.call_many("history_one", payloads, chunk=2)
+    pool.close()
+    bad = 0
+    for pl, calls, problems in zip(payloads, meta, results):
+        if problems and bad < 2:
+            bad += 1
+            ctx.violation({"what": "documents importing one file, validated one after the other on one validator instance: a result differs from what a fresh instance gives",
+                           "documents": pl["docs"], "calls (document index, entry point)": pl["calls"], "problems": problems[:3]})
+    ctx.coverage["same_file_histories"] = {"histories": len(payloads), "with_problems": sum(1 for r in results if r)}
+    ctx.coverage["evaluations"] = ctx.coverage.get("evaluations", 0) + sum(len(pl["calls"]) for pl in payloads)
+
+
 def run(ctx):
     ok, thms, log = kernel.proof_step(ctx, regen=("tables",))
     ok_d, thms_d, log_d = extra_property_file(ctx, "C16_deep")
@@ -331,6 +377,7 @@ def run(ctx):
     if r_imp["outcome"] == "accept" and r_nat["outcome"] == "accept":
         ctx.known_finding("a native checkpoint may depend on an imported action that appends objects (the 'no checkpoint depends on an appending action' rule is only enforced inside the imported schema); witness: checks/c16.py kf_witness")
     ctx.notes.append("known-finding witness: imported alone %s, importing %s" % (r_imp["outcome"], r_nat["outcome"]))
+    same_file_histories(ctx, random.Random(ctx.seed + 9), 12 * scale)
     deep_evaluated, deep_items = deep_family(ctx, 80 * scale, 120 * scale)
     evaluated = evaluated and deep_evaluated
     items = items + deep_items
